@@ -97,14 +97,49 @@ pub fn vec_reverse_lonlat(v: &mut Vec<LonLat>)
     ensures final(v)@ == old(v)@.reverse(),
 { v.reverse() }
 
-// cell.rs::lonlat_to_estimate (float: nearest face, projection, quintant, ij_to_s): NOT under contract.
-// ASSUMED: whatever it returns carries the requested resolution, a face id < 12 and a segment < 5
-// (origin.id of find_nearest_origin; quintant_to_segment's `% 5`).  Its own integer precondition
-// (curve depth resolution - 1 in 1..=28 for ij_to_s' shifts) is an obligation at the call sites.
+// ---- float callees of lonlat_to_estimate (cell.rs); ASSUMED total, integer preconditions are obligations
+#[verifier::external_body] #[derive(Clone, Copy)] pub struct PolarPt { _p: f64 }
+#[verifier::external_body] #[derive(Clone, Copy)] pub struct IJPt { _p: f64 }
+
+// origin.rs::find_nearest_origin: returns a reference into the face table (`&origins[0]` or a later element)
 #[verifier::external_body]
-pub fn lonlat_to_estimate(lonlat: LonLat, resolution: i32) -> (res: Result<A5Cell, String>)
-    requires 0 <= resolution <= 29,
-    ensures res is Ok ==> res->Ok_0.origin_id < 12 && res->Ok_0.segment < 5 && res->Ok_0.resolution == resolution,
+pub fn find_nearest_origin(point: SphericalPt) -> (r: &'static Origin)
+    ensures origins_ok(get_origins_spec()), r.id < 12, *r == get_origins_spec()[r.id as int],
+{ unimplemented!() }
+
+#[verifier::external_body]
+pub fn to_polar(face: Face) -> PolarPt { unimplemented!() }
+
+// tiling.rs::get_quintant_polar: `(.. as i32 + 5) as usize % 5`
+#[verifier::external_body]
+pub fn get_quintant_polar(polar: PolarPt) -> (r: usize)
+    ensures r < 5,
+{ unimplemented!() }
+
+// origin.rs::quintant_to_segment: `(quintant + 5 - first_quintant) % 5`, `layout[..]`, `(first_quintant + ..) % 5`;
+// for the 12 real faces x 5 quintants the result `< 5` is part of what Kani K3 proves on the real function
+#[verifier::external_body]
+pub fn quintant_to_segment(quintant: usize, origin: &Origin) -> (r: (usize, Orientation))
+    requires quintant < 5, origin.first_quintant < 5, origin.orientation@.len() == 5,
+    ensures r.0 < 5,
+{ unimplemented!() }
+
+// the float expressions of lonlat_to_estimate (rotation into the first fifth, scaling by 2^depth): no integer content
+#[verifier::external_body]
+pub fn rotate_into_fifth(p: Face, quintant: usize) -> Face { unimplemented!() }
+#[verifier::external_body]
+pub fn f_pow2(e: i32) -> f64 { unimplemented!() }
+#[verifier::external_body]
+pub fn f_scale_face(p: Face, k: f64) -> Face { unimplemented!() }
+
+#[verifier::external_body]
+pub fn face_to_ij(p: Face) -> IJPt { unimplemented!() }
+
+// hilbert.rs::ij_to_s: `1 << resolution` (i32) and `1u64 << (2 * resolution)`: needs resolution <= 30; digits < 4
+// summed with weights 4^i: result < 4^resolution is NOT assumed here (serialize re-checks it)
+#[verifier::external_body]
+pub fn ij_to_s(ij: IJPt, resolution: usize, orientation: Orientation) -> (r: u64)
+    requires 1 <= resolution <= 28,
 { unimplemented!() }
 
 // float expressions of lonlat_to_cell's sampling spiral (no integer content)
